@@ -25,7 +25,8 @@ TECHNIQUE = "Coq proof over an executable PAV model + extracted-model correspond
 SITES = []
 RULE = ("forecast/observation/weight arrays of 1-14 pairs in 1-3-d shapes, forecasts from 1-5 levels (heavy ties), observations on the grid k/2, "
         "NaN injected in any of the three arrays, weights from {1/2,1,2,3}, functional mean / quantile (dyadic levels) / seven custom solvers, numpy and "
-        "xarray containers (dims transposed, coordinates shuffled), integer dtype; bootstrap cases replay np.random.seed; a separate malformed "
+        "xarray containers (dims transposed, coordinates shuffled), integer dtype; integer-valued pairs with fcst / obs / weight held independently in "
+        "int64 / int32 / int16 / float32 arrays (numpy and xarray) plus a deterministic dtype corpus; bootstrap cases replay np.random.seed; a separate malformed "
         "stream covers every _iso_arg_checks branch. A case is distinct by the hash of (function, inputs, options), non-trivial when the fit has >= 2 pairs")
 ASSUMPTIONS = ["inputs are finite or NaN (no infinities)", "custom solvers are deterministic functions of the block's (observation, weight) sequence",
                "bootstrap resampling uses numpy's global RNG: np.random.randint(0, n, n) per bootstrap, replayed by the harness from the same seed"]
@@ -144,6 +145,58 @@ def kwargs(functional, solver, q, w):
     return kw
 
 
+# storage dtypes (signed integers and float32; unsigned / bool are out of scope: numpy wraps `-obs` there)
+DTYPES = ["int64", "int32", "int16", "float32", "float64"]
+
+
+def gen_typed_pairs(rng, nmax=14):
+    """integer-valued pairs with heavy ties; fcst, obs and weight get a storage dtype each, independently; NaN only where the
+    dtype can hold it"""
+    n = rng.randint(1, nmax)
+    levels = sorted({rng.randint(-6, 8) for _ in range(rng.randint(1, 4))})
+    f = [float(rng.choice(levels)) for _ in range(n)]
+    r = rng.random()
+    if r < 0.3:
+        o = [float(rng.randint(0, 4)) for _ in range(n)]
+    elif r < 0.5:
+        o = [float(rng.randint(0, 1)) for _ in range(n)]
+    else:
+        o = [float(rng.randint(-8, 8)) for _ in range(n)]
+    w = [float(rng.choice([1, 1, 2, 3, 4])) for _ in range(n)] if rng.random() < 0.5 else None
+    while True:
+        dts = [rng.choice(DTYPES) for _ in range(3)]
+        if any(d != "float64" for d in (dts if w is not None else dts[:2])):
+            break
+    for arr, d in ((f, dts[0]), (o, dts[1]), (w, dts[2])):
+        if arr is not None and d.startswith("float") and rng.random() < 0.3:
+            for i in range(n):
+                if rng.random() < 0.1:
+                    arr[i] = NAN
+    return f, o, w, tuple(dts)
+
+
+def typed(vals, shape, dtype):
+    """list of python floats -> numpy array of the storage dtype (values are integers wherever the dtype is an integer one)"""
+    a = np.array(vals, dtype=float).reshape(shape)
+    return a if dtype is None else a.astype(dtype)
+
+
+def wide_solver(fn):
+    """the harness's solvers compute in binary64 whatever the storage dtype of the block they are handed (np.mean of a
+    float32 block would return a float32: the precision of a user-supplied solver is not the library's business)"""
+    def g(y, w=None):
+        y = np.asarray(y, dtype=np.float64)
+        return fn(y) if w is None else fn(y, np.asarray(w, dtype=np.float64))
+    return g
+
+
+def typed_kwargs(functional, solver, q, w):
+    kw = kwargs(functional, solver, q, w)
+    if "solver" in kw:
+        kw["solver"] = wide_solver(kw["solver"])
+    return kw
+
+
 # ------------------------------------------------------------------------------------------
 # comparisons
 # ------------------------------------------------------------------------------------------
@@ -176,6 +229,8 @@ def block_check(ctx, res, f, o, w, functional, solver, q, case):
         ctx.violation("unique forecasts are not the sorted distinct valid forecasts", case, sorted(set(fa.tolist())), uf.tolist())
     if any(b < a - 1e-9 for a, b in zip(vals, vals[1:])):
         ctx.violation("regression values are not non-decreasing", case, "non-decreasing", vals.tolist())
+    if np.any(np.isnan(np.asarray(vals, float))) and not np.any(np.isnan(oa)):
+        ctx.violation("regression values contain NaN although every remaining pair is NaN-free", case, "finite values", np.asarray(vals, float).tolist())
     # maximal constant blocks of the fit = solver applied to the block's observations
     sv = py_solver("mean") if functional == "mean" else (py_solver("quantile", q) if functional == "quantile" else py_solver(*solver))
     i = 0
@@ -208,15 +263,44 @@ def fit_case(ctx, M, rng, i):
     check_fit(ctx, M, rng, i, f, o, w, functional, solver, q, shape, intobs)
 
 
-def check_fit(ctx, M, rng, i, f, o, w, functional, solver, q, shape, intobs):
+def func_at_forecasts(ctx, res, F, case):
+    """the fitted function read at the forecasts AS STORED (their dtype) returns the regression value of each forecast"""
+    x = F.ravel()
+    x = x[~np.isnan(x.astype(float))]
+    uf = [float(v) for v in res["fcst_sorted"]]
+    x = x[np.isin(x.astype(float), uf)]
+    if not len(x):
+        return
+    got = np.asarray(res["regression_func"](x), float)
+    want = np.array([float(res["regression_values"][uf.index(float(v))]) for v in x])
+    if not np.allclose(got, want, rtol=1e-9, atol=1e-12, equal_nan=True):
+        ctx.violation("regression_func evaluated at the forecasts differs from regression_values", dict(case, x=x.tolist()), want.tolist(), got.tolist())
+
+
+def typed_fit_case(ctx, M, rng, i):
+    """the same values held in int64 / int32 / int16 / float32 arrays (fcst, obs, weight independently): exact model and oracles"""
+    f, o, w, dts = gen_typed_pairs(rng)
+    functional, solver, q = rand_functional(rng, w is not None)
+    check_fit(ctx, M, rng, i, f, o, w, functional, solver, q, rand_shape(rng, len(f)), False, dtypes=dts)
+
+
+def check_fit(ctx, M, rng, i, f, o, w, functional, solver, q, shape, intobs, dtypes=None):
     n = len(f)
-    F, O = np.array(f).reshape(shape), np.array(o).reshape(shape)
+    df, do, dw = dtypes or (None, None, None)
+    kwargs_ = typed_kwargs if dtypes else kwargs
+    F, O = typed(f, shape, df), typed(o, shape, do)
     if intobs:
         O = O.astype(int)
-    W = None if w is None else np.array(w).reshape(shape)
+    W = None if w is None else typed(w, shape, dw)
     case = {"fn": "isotonic_fit", "shape": list(shape), "fcst": f, "obs": o, "weight": w, "functional": functional,
             "solver": solver, "quantile_level": q, "int_obs": intobs}
-    impl = core.call_impl(M.isotonic_fit, F, O, **kwargs(functional, solver, q, W))
+    if dtypes:
+        case["dtypes"] = list(dtypes)
+        ctx.count("dtype:fcst:" + df)
+        ctx.count("dtype:obs:" + do)
+        if w is not None:
+            ctx.count("dtype:weight:" + dw)
+    impl = core.call_impl(M.isotonic_fit, F, O, **kwargs_(functional, solver, q, W))
     a = enc_args(shape, shape, None if w is None else shape, f, o, w, functional, solver, q, None, Fraction(9, 10), False)
     m = ctx.model("c15_fit", a)
     ctx.count("functional:" + (functional or "solver:" + solver[0]))
@@ -254,6 +338,7 @@ def check_fit(ctx, M, rng, i, f, o, w, functional, solver, q, shape, intobs):
     # ---- property predicates on the implementation (evaluated whether or not the tie holds) ----
     try:
         block_check(ctx, res, f, o, w, functional, solver, q, case)
+        func_at_forecasts(ctx, res, F, case)
     except Exception as ex:  # noqa: BLE001  (a broken implementation may return arrays the predicates cannot index)
         ctx.violation("result dictionary is inconsistent (" + type(ex).__name__ + ")", case, "consistent fcst_sorted / fcst_counts / regression_values", summary_str(res))
     if functional == "mean":
@@ -266,8 +351,8 @@ def check_fit(ctx, M, rng, i, f, o, w, functional, solver, q, shape, intobs):
     # pairs with a NaN are ignored: same fit as with those pairs deleted (relation between public calls)
     valid = [k for k in range(n) if not (np.isnan(f[k]) or np.isnan(o[k]) or (w is not None and np.isnan(w[k])))]
     if len(valid) < n and valid and not intobs:
-        r3 = M.isotonic_fit(np.array([f[k] for k in valid]), np.array([o[k] for k in valid]),
-                            **kwargs(functional, solver, q, None if w is None else np.array([w[k] for k in valid])))
+        r3 = M.isotonic_fit(typed([f[k] for k in valid], -1, df), typed([o[k] for k in valid], -1, do),
+                            **kwargs_(functional, solver, q, None if w is None else typed([w[k] for k in valid], -1, dw)))
         ctx.case(("nan-deleted", repr(case)))
         if not (np.array_equal(r3["fcst_sorted"], res["fcst_sorted"]) and np.array_equal(r3["fcst_counts"], res["fcst_counts"])
                 and np.allclose(r3["regression_values"], res["regression_values"], rtol=1e-9, atol=1e-12, equal_nan=True)):
@@ -277,9 +362,11 @@ def check_fit(ctx, M, rng, i, f, o, w, functional, solver, q, shape, intobs):
         perm = list(range(n))
         rng.shuffle(perm)
         shape2 = rand_shape(rng, n)
-        F2, O2 = np.array([f[k] for k in perm]).reshape(shape2), np.array([o[k] for k in perm]).reshape(shape2)
-        W2 = None if w is None else np.array([w[k] for k in perm]).reshape(shape2)
-        r2 = M.isotonic_fit(F2, O2, **kwargs(functional, solver, q, W2))
+        F2, O2 = typed([f[k] for k in perm], shape2, df), typed([o[k] for k in perm], shape2, do)
+        if intobs:
+            O2 = O2.astype(int)
+        W2 = None if w is None else typed([w[k] for k in perm], shape2, dw)
+        r2 = M.isotonic_fit(F2, O2, **kwargs_(functional, solver, q, W2))
         same = (np.allclose(r2["fcst_sorted"], res["fcst_sorted"]) and np.array_equal(r2["fcst_counts"], res["fcst_counts"])
                 and np.allclose(r2["regression_values"], res["regression_values"], rtol=1e-9, atol=1e-12))
         ctx.case(("perm", repr(case), tuple(perm), shape2))
@@ -326,11 +413,23 @@ def check_pav(ctx, M, y, w, solvers):
 
 def xarray_case(ctx, M, rng):
     sizes = gens.rand_sizes(rng, names=["x", "y", "z"], maxdims=3, maxsize=3)
-    levels = [float(Fraction(rng.randint(-6, 6), 2)) for _ in range(rng.randint(1, 4))]
-    fc = gens.rand_da(rng, sizes, values=levels, nan_p=0.1 if rng.random() < 0.4 else 0.0)
-    ob = gens.rand_da(rng, sizes, den=2, bound=6, nan_p=0.1 if rng.random() < 0.4 else 0.0)
-    wt = gens.rand_da(rng, sizes, values=[0.5, 1.0, 2.0, 3.0], nan_p=0.1 if rng.random() < 0.3 else 0.0) if rng.random() < 0.4 else None
+    dts = None
+    if rng.random() < 0.3:
+        # integer-valued DataArrays held in int64 / int32 / int16 / float32 (NaN only in the float ones)
+        dts = [rng.choice(DTYPES) for _ in range(3)]
+        nanp = [(0.1 if d.startswith("float") and rng.random() < 0.4 else 0.0) for d in dts]
+        levels = [float(rng.randint(-6, 8)) for _ in range(rng.randint(1, 4))]
+        fc = gens.rand_da(rng, sizes, values=levels, nan_p=nanp[0]).astype(dts[0])
+        ob = gens.rand_da(rng, sizes, values=list(range(-6, 7)), nan_p=nanp[1]).astype(dts[1])
+        wt = gens.rand_da(rng, sizes, values=[1.0, 2.0, 3.0, 4.0], nan_p=nanp[2]).astype(dts[2]) if rng.random() < 0.5 else None
+        ctx.count("xarray:typed")
+    else:
+        levels = [float(Fraction(rng.randint(-6, 6), 2)) for _ in range(rng.randint(1, 4))]
+        fc = gens.rand_da(rng, sizes, values=levels, nan_p=0.1 if rng.random() < 0.4 else 0.0)
+        ob = gens.rand_da(rng, sizes, den=2, bound=6, nan_p=0.1 if rng.random() < 0.4 else 0.0)
+        wt = gens.rand_da(rng, sizes, values=[0.5, 1.0, 2.0, 3.0], nan_p=0.1 if rng.random() < 0.3 else 0.0) if rng.random() < 0.4 else None
     functional, solver, q = rand_functional(rng, wt is not None)
+    kwargs_ = typed_kwargs if dts else kwargs
     if solver is not None and solver not in SYMMETRIC:
         solver = ("max", None)
     bad = rng.random() < 0.08
@@ -338,7 +437,9 @@ def xarray_case(ctx, M, rng):
         ob = ob.rename({ob.dims[0]: "other"})
     case = {"fn": "isotonic_fit[xarray]", "fcst": gens.da_repr(fc), "obs": gens.da_repr(ob), "weight": gens.da_repr(wt),
             "functional": functional, "solver": solver, "quantile_level": q}
-    impl = core.call_impl(M.isotonic_fit, fc, ob, **kwargs(functional, solver, q, wt))
+    if dts:
+        case["dtypes"] = dts
+    impl = core.call_impl(M.isotonic_fit, fc, ob, **kwargs_(functional, solver, q, wt))
     ctx.count("xarray")
     if bad:
         ctx.case(case, False)
@@ -362,7 +463,7 @@ def xarray_case(ctx, M, rng):
     if not summary_matches(impl[1], m):
         ctx.tie_fail("isotonic_fit[xarray] vs model", case, summary_str(impl[1]), str(m))
     # container / layout independence (relation between public calls): same pairs as plain numpy arrays, matched by label
-    rn = M.isotonic_fit(np.array(f).reshape(sh), np.array(o).reshape(sh), **kwargs(functional, solver, q, None if w is None else np.array(w).reshape(sh)))
+    rn = M.isotonic_fit(np.asarray(fc.values), np.asarray(o2.values), **kwargs_(functional, solver, q, None if w2 is None else np.asarray(w2.values)))
     if not (np.array_equal(rn["fcst_sorted"], impl[1]["fcst_sorted"]) and np.array_equal(rn["fcst_counts"], impl[1]["fcst_counts"])
             and np.allclose(rn["regression_values"], impl[1]["regression_values"], rtol=1e-9, atol=1e-12, equal_nan=True)):
         ctx.violation("xarray inputs (dims transposed, coordinates shuffled) give a different fit than the same pairs as numpy arrays",
@@ -567,15 +668,25 @@ def o_maxmin(f, o, w):
     return keys, out
 
 
-def oracle_fit_case(ctx, M, rng):
-    f, o, w = gen_pairs(rng)
+def oracle_fit_case(ctx, M, rng, with_dtypes=False):
+    f, o, w, dts = gen_typed_pairs(rng) if with_dtypes else (gen_pairs(rng) + (None,))
+    oracle_fit(ctx, M, rng, f, o, w, dts)
+
+
+def oracle_fit(ctx, M, rng, f, o, w, dts, functional=None, solver=None, q=None, shape=None):
     n = len(f)
-    functional, solver, q = rand_functional(rng, w is not None)
-    shape = rand_shape(rng, n)
+    if functional is None and solver is None:
+        functional, solver, q = rand_functional(rng, w is not None)
+    shape = shape or rand_shape(rng, n)
+    df, do, dw = dts or (None, None, None)
+    kwargs_ = typed_kwargs if dts else kwargs
     case = {"fn": "isotonic_fit", "shape": list(shape), "fcst": f, "obs": o, "weight": w, "functional": functional,
             "solver": solver, "quantile_level": q, "int_obs": False}
-    impl = core.call_impl(M.isotonic_fit, np.array(f).reshape(shape), np.array(o).reshape(shape),
-                          **kwargs(functional, solver, q, None if w is None else np.array(w).reshape(shape)))
+    if dts:
+        case["dtypes"] = list(dts)
+    F = typed(f, shape, df)
+    impl = core.call_impl(M.isotonic_fit, F, typed(o, shape, do),
+                          **kwargs_(functional, solver, q, None if w is None else typed(w, shape, dw)))
     valid = [k for k in range(n) if not (np.isnan(f[k]) or np.isnan(o[k]) or (w is not None and np.isnan(w[k])))]
     ctx.case(("oracle-fit", repr(case)), len(valid) >= 2)
     if impl[0] == "err":
@@ -585,6 +696,7 @@ def oracle_fit_case(ctx, M, rng):
     res = impl[1]
     try:
         block_check(ctx, res, f, o, w, functional, solver, q, case)
+        func_at_forecasts(ctx, res, F, case)
     except Exception as ex:  # noqa: BLE001
         ctx.violation("result dictionary is inconsistent (" + type(ex).__name__ + ")", case, "consistent arrays", summary_str(res))
     if functional == "mean":
@@ -596,15 +708,15 @@ def oracle_fit_case(ctx, M, rng):
         perm = list(range(n))
         rng.shuffle(perm)
         shape2 = rand_shape(rng, n)
-        r2 = M.isotonic_fit(np.array([f[k] for k in perm]).reshape(shape2), np.array([o[k] for k in perm]).reshape(shape2),
-                            **kwargs(functional, solver, q, None if w is None else np.array([w[k] for k in perm]).reshape(shape2)))
+        r2 = M.isotonic_fit(typed([f[k] for k in perm], shape2, df), typed([o[k] for k in perm], shape2, do),
+                            **kwargs_(functional, solver, q, None if w is None else typed([w[k] for k in perm], shape2, dw)))
         if not (np.allclose(r2["fcst_sorted"], res["fcst_sorted"]) and np.array_equal(r2["fcst_counts"], res["fcst_counts"])
                 and np.allclose(r2["regression_values"], res["regression_values"], rtol=1e-9, atol=1e-12)):
             ctx.violation("fit changes when the input pairs are permuted / reshaped", dict(case, permutation=perm, shape2=list(shape2)),
                           summary_str(res), summary_str(r2))
     if len(valid) < n and valid:
-        r3 = M.isotonic_fit(np.array([f[k] for k in valid]), np.array([o[k] for k in valid]),
-                            **kwargs(functional, solver, q, None if w is None else np.array([w[k] for k in valid])))
+        r3 = M.isotonic_fit(typed([f[k] for k in valid], -1, df), typed([o[k] for k in valid], -1, do),
+                            **kwargs_(functional, solver, q, None if w is None else typed([w[k] for k in valid], -1, dw)))
         if not (np.array_equal(r3["fcst_sorted"], res["fcst_sorted"]) and np.array_equal(r3["fcst_counts"], res["fcst_counts"])
                 and np.allclose(r3["regression_values"], res["regression_values"], rtol=1e-9, atol=1e-12, equal_nan=True)):
             ctx.violation("pairs containing a NaN are not ignored: the fit differs from the fit with those pairs deleted", case, summary_str(r3), summary_str(res))
@@ -645,10 +757,11 @@ def run_without_model(ctx):
         if not ctx.time_left():
             break
         oracle_pav_case(ctx, M, rng)
-    for _ in range(ctx.n(900, 12000)):
+    dtype_corpus(ctx, M, rng, model=False)
+    for k in range(ctx.n(900, 12000)):
         if not ctx.time_left():
             break
-        oracle_fit_case(ctx, M, rng)
+        oracle_fit_case(ctx, M, rng, with_dtypes=(k % 3 == 2))
 
 
 def known_cases(ctx, M):
@@ -661,6 +774,25 @@ def known_cases(ctx, M):
         ctx.violation("integer-typed obs: block values are truncated (each block must equal the solver applied to its observations)",
                       {"fcst": f, "obs": o, "dtype": "int", "functional": "quantile", "quantile_level": 0.5}, str(m[2]), res["regression_values"].tolist(),
                       finding_key=FINDING_INT)
+
+
+# repro of the repaired defect isotonic-int32-tied-fcst (/repo ad3fbe5): tied forecasts held in a 32-bit (or narrower) integer
+# array gave regression_values [nan, 2.667, 3.0] instead of [2.5, 2.667, 3.0] (scipy interp1d's integer path divides by x_hi - x_lo = 0)
+REPRO_I32 = ([2.0, 0.0, 0.0, 2.0, 3.0, 0.0], [4.0, 2.0, 0.0, 0.0, 3.0, 4.0], [2.0, 1.0, 1.0, 1.0, 2.0, 2.0])
+
+
+def dtype_corpus(ctx, M, rng, model=True):
+    """deterministic corpus: the repro in every storage dtype of fcst x (obs, weight) dtypes x functional; a regression is a VIOLATION"""
+    f, o, w = REPRO_I32
+    for df in ("int32", "int16", "int64", "float32"):
+        for do, dw in (("int64", "int64"), (df, df), ("float64", "float64")):
+            for functional, solver, q, ww in (("mean", None, None, w), ("mean", None, None, None), ("quantile", None, Fraction(1, 2), None),
+                                             (None, ("max", None), None, w)):
+                if model:
+                    check_fit(ctx, M, rng, 9, list(f), list(o), None if ww is None else list(ww), functional, solver, q, (6,), False, dtypes=(df, do, dw))
+                else:
+                    oracle_fit(ctx, M, rng, list(f), list(o), None if ww is None else list(ww), (df, do, dw), functional, solver, q, (6,))
+    ctx.count("dtype_corpus", 48)
 
 
 def _num(x):
@@ -690,7 +822,8 @@ def replay(ctx, obj):
         elif fn == "isotonic_fit":
             f, o = [_num(x) for x in c["fcst"]], [_num(x) for x in c["obs"]]
             w = None if c["weight"] is None else [_num(x) for x in c["weight"]]
-            check_fit(ctx, M, random.Random(0), 9, f, o, w, c["functional"], solver, _frac(c["quantile_level"]), tuple(c["shape"]), bool(c.get("int_obs")))
+            check_fit(ctx, M, random.Random(0), 9, f, o, w, c["functional"], solver, _frac(c["quantile_level"]), tuple(c["shape"]), bool(c.get("int_obs")),
+                      dtypes=tuple(c["dtypes"]) if c.get("dtypes") else None)
         elif fn == "isotonic_fit[bootstrap]":
             f, o = [_num(x) for x in c["fcst"]], [_num(x) for x in c["obs"]]
             w = None if c["weight"] is None else [_num(x) for x in c["weight"]]
@@ -706,6 +839,7 @@ def run(ctx):
     M = I()
     rng = ctx.rng
     known_cases(ctx, M)
+    dtype_corpus(ctx, M, rng)
     for _ in range(ctx.n(200, 8000)):
         if not ctx.time_left():
             break
@@ -714,10 +848,14 @@ def run(ctx):
         if not ctx.time_left():
             break
         fit_case(ctx, M, rng, i)
-    for _ in range(ctx.n(150, 6000)):
+    for i in range(ctx.n(250, 8000)):
         if not ctx.time_left():
             break
-        oracle_fit_case(ctx, M, rng)
+        typed_fit_case(ctx, M, rng, 9)
+    for k in range(ctx.n(150, 6000)):
+        if not ctx.time_left():
+            break
+        oracle_fit_case(ctx, M, rng, with_dtypes=(k % 3 == 2))
     ctx.count("oracle_fit_cases", ctx.n(150, 6000))
     for _ in range(ctx.n(150, 6000)):
         if not ctx.time_left():
